@@ -28,43 +28,58 @@ def nontrivial(t):
     return None
 
 
-class Scripted:
-    """Scripted clusterer (binding B): K clusters; the trimmed training pool is predicted into `ltrim` only
+def make_scripted(K, ltrim, n_particles, small=0, slots="all"):
+    """Scripted clusterer (binding B): K clusters; the trimmed training pool is labelled into `ltrim` only
     (a fitted cluster may attract no trimmed point; with `small` = m the LAST label of ltrim gets exactly m training
     points - a cluster that keeps only a few trimmed particles); resampled particles get labels by `slots`:
     "all" every label of 0..K-1 occurs, "top" every particle in cluster K-1 (lower clusters hold no active particle),
-    "gap" only clusters 0 and K-1 occur."""
+    "gap" only clusters 0 and K-1 occur.
+    A SUBCLASS of the real HierarchicalGaussianMixture (every attribute the library may consult exists: min_points, labels_,
+    cluster weights, ...); which labelling a predict() call gets is decided by WHO calls (the resampling step or anything else),
+    not by counting calls."""
+    import sys as _sys
 
-    def __init__(self, K, ltrim, n_particles, small=0, slots="all"):
-        self.K, self.ltrim, self.np_, self.small, self.slots = K, list(ltrim), n_particles, small, slots
-        self.n_clusters_ = 0
-        self.calls = 0
+    import numpy as np
+    from tempest.cluster import HierarchicalGaussianMixture
 
-    def fit(self, X, w=None):
-        self.n_clusters_ = self.K
-        return self
+    class Scripted(HierarchicalGaussianMixture):
+        def __init__(self):
+            super().__init__()
+            self.K, self.ltrim, self.np_, self.small, self.slots = K, list(ltrim), n_particles, small, slots
+            self.n_clusters_ = 0
+            self.calls = 0
 
-    def predict(self, X):
-        import numpy as np
+        def _train_labels(self, X):
+            # a function of the point (duplicates get the same label), balanced over ltrim
+            rows = [np.ascontiguousarray(x, dtype=float).tobytes() for x in X]
+            uniq = sorted(set(rows))
+            rank = {r: k for k, r in enumerate(uniq)}
+            if self.small and len(self.ltrim) >= 2:
+                # the last label gets exactly `small` distinct points, the others share the rest
+                rest = self.ltrim[:-1]
+                lab = {r: (self.ltrim[-1] if k < self.small else rest[k % len(rest)]) for r, k in rank.items()}
+                return np.array([lab[r] for r in rows])
+            return np.array([self.ltrim[rank[r] % len(self.ltrim)] for r in rows])
 
-        self.calls += 1
-        n = len(X)
-        if n == self.np_ and self.calls % 2 == 0:  # the Resampler's call
-            if self.slots == "top":
-                return np.full(n, self.K - 1)
-            if self.slots == "gap":
-                return np.where(np.arange(n) % 2 == 0, 0, self.K - 1)
-            return np.arange(n) % self.K
-        # the Trainer's call: a function of the point (duplicates get the same label), balanced over ltrim
-        rows = [np.ascontiguousarray(x, dtype=float).tobytes() for x in X]
-        uniq = sorted(set(rows))
-        rank = {r: k for k, r in enumerate(uniq)}
-        if self.small and len(self.ltrim) >= 2:
-            # the last label gets exactly `small` distinct points, the others share the rest
-            rest = self.ltrim[:-1]
-            lab = {r: (self.ltrim[-1] if k < self.small else rest[k % len(rest)]) for r, k in rank.items()}
-            return np.array([lab[r] for r in rows])
-        return np.array([self.ltrim[rank[r] % len(self.ltrim)] for r in rows])
+        def fit(self, X, w=None, *a, **k):
+            self.n_clusters_ = self.K
+            self.labels_ = self._train_labels(np.asarray(X))
+            self.cluster_weights_ = [1.0 / self.K] * self.K
+            return self
+
+        def predict(self, X):
+            self.calls += 1
+            n = len(X)
+            caller = _sys._getframe(1).f_globals.get("__name__", "")
+            if caller.endswith("resample"):  # the Resampler's call
+                if self.slots == "top":
+                    return np.full(n, self.K - 1)
+                if self.slots == "gap":
+                    return np.where(np.arange(n) % 2 == 0, 0, self.K - 1)
+                return np.arange(n) % self.K
+            return self._train_labels(np.asarray(X))
+
+    return Scripted()
 
 
 def _scripted_job(job):
@@ -81,7 +96,7 @@ def _scripted_job(job):
     rec.check_labels_from_model = False   # the scripted clusterer deliberately labels the Resampler's call differently
     np.random.seed(job["seed"])
     s, c = drivers.build_sampler(conf, rec)
-    fake = Scripted(K, ltrim, 12, small=job.get("small", 0), slots=job.get("slots", "all"))
+    fake = make_scripted(K, ltrim, 12, small=job.get("small", 0), slots=job.get("slots", "all"))
     s._core.trainer.clusterer = fake
     s._core.resampler.clusterer = fake
     rec.attach(s)
@@ -132,7 +147,7 @@ def scripted_part(ck):
                              {"scenario": sc, "event": tr["events"][f["l"] - 1], "label": tr["meta"]["label"]})
     nontriv = sum(1 for t in traces if len(t["meta"]["scripted"]["ltrim"]) < t["meta"]["scripted"]["K"])
     begins = sum(1 for t in traces for e in t["events"] if e["ev"] == "MutateBegin")
-    if begins == 0:
+    if begins == 0 and not ck.violations:
         raise RuntimeError("vacuous scripted scenarios: kernel never reached")
     ck.sample({"scripted": traces[1]["meta"]["scripted"], "MutateBegin": next((e for e in traces[1]["events"] if e["ev"] == "MutateBegin"), None)})
     return {"scripted_scenarios": len(traces), "scripted_unpopulated_label_scenarios": nontriv, "scripted_mutate_begins": begins, "scripted_states": st["states"],
@@ -152,6 +167,10 @@ def main():
     # deterministic probe of the known finding "degenerate cluster -> singular scale matrix" (see known_findings.json)
     jobs.append({"conf": dict(sample="rwm", clustering=True, n_particles=16, target="edge", support=0.5), "seed": 1001, "n_total": 32,
                  "label": "probe: degenerate cluster (known finding)"})
+    # adjacent clusters (a curved ridge cut into neighbouring pieces) with many particles near the cuts, several cadences
+    for i, (every, npart, kern) in enumerate([(5, 128, "tpcn"), (3, 96, "rwm")] + ([] if ck.tier == "quick" else [(2, 128, "tpcn"), (7, 192, "tpcn"), (4, 96, "rwm")])):
+        jobs.append({"conf": dict(sample=kern, clustering=True, n_particles=npart, target="banana", cluster_every=every), "seed": 1400 + i + ck.seed,
+                     "n_total": 2 * npart, "label": f"banana every={every} n={npart} {kern}"})
     sc, traces = sysrun.system_part(ck, "C14", jobs, nontrivial)
     cov.update(sc)
     cov.update(sysrun.selftest(traces[0]))
